@@ -13,7 +13,7 @@ from harness.swctext import Expect, cps, sci_value
 PID = "C15"
 TRANSLATE_ALGO = ["AlgoAsc", "AlgoAscLex"]   # Gen/AlgoAsc.lean: the token-level Parser and from_ast / walk_ast of neurolucida_asc.py, regenerated on every run
 DRIVER_FILES = ["SwcVerif/Model/AlgoRunAsc.lean", "SwcVerif/Model/AlgoRunAscLex.lean"]
-LEAN_MODS = ["SwcVerif.Props.C15", "SwcVerif.Props.C15Gen"]
+LEAN_MODS = ["SwcVerif.Props.C15", "SwcVerif.Props.C15Gen", "SwcVerif.Props.C15Lex"]
 THEOREMS = [
     "C15.convert_faithful", "C15.rows_count", "C15.trailing_ignored", "C15.comment_skipped", "C15.color_skipped", "C15.leading_comment_skipped",
     "C15.bad_point_rejected", "C15.unbracketed_point_rejected", "C15.node_error_propagates", "C15.truncation_rejected_body", "C15.header_truncation_rejected", "C15.truncation_rejected", "C15.lex_skips_blanks", "C15.lex_structural",
@@ -25,6 +25,12 @@ THEOREMS = [
     "RefineAscLoop.loop_sim", "RefineAscLoop.parse_color_refines", "RefineAscLoop.parse_comment_refines",
     "RefineAscTop.skip_comments_sim", "RefineAscTop.parse_tree_refines", "RefineAscTop.top_sim", "RefineAscTop.parse_refines",
     "RefineAscFuel.convertWith_nofuel",
+    # the character level: the Lexer GENERATED from the current source (Gen/AlgoAscLex.lean) = the hand-written lexer model, on every text
+    # (Refine/AscLex.lean), and text -> generated lexer -> generated parser -> generated walk = Asc.convert
+    "C15.generated_lex_eq_model", "C15.generated_lexer_raises_iff_bad", "C15.generated_lex_noBad", "C15.generated_next_eq_model",
+    "C15.model_lex_is_iterated_step", "C15.generated_text_convert_eq_model",
+    "RefineAscLex.read_char_mk", "RefineAscLex.while1_loop", "RefineAscLex.while2_loop", "RefineAscLex.read_word_mk",
+    "RefineAscLex.read_line_mk", "RefineAscLex.lex_loop", "RefineAscLex.init_mk",
 ]
 TRUSTED = ["hand-written character-level lexer model `Asc.lex` in Model/Asc.lean (tied by the c15.convert / asclex correspondence on generated, truncated and "
            "corrupted documents); the token-level parser model (`Asc.convertTokens`: the `flag` protocol, rows created in `_parse_node` order without "
